@@ -526,8 +526,10 @@ def replay(path):
     d = json.load(open(path))
     r = d["replay"]
     binp = common.native_build("default")
-    rc, o1, _ = common.run_stylua(binp, r["source"], r["args"])
-    rc, o2, _ = common.run_stylua(binp, o1, r["args"])
+    args = r.get("args", r.get("flags", []))
+    rc, o1, _ = common.run_stylua(binp, r["source"], args)
+    rc, o2, _ = common.run_stylua(binp, o1, args)
+    r["args"] = args
     if o1 != o2:
         print("not idempotent:", repr(r["source"]), r["args"])
         print(f"VIOLATION property=C06 replay={path}")
